@@ -17,11 +17,14 @@ for f in kf:
     if f["status"] == "open":
         print("| %s | %s | %s, %s | %s |" % (f["property"], f["id"], f.get("clause"), json.dumps(f.get("where")), f["what"].replace("|", "/")))
 print("\n### Seeded changes\n")
-print("| seed | breaks | caught by | needs to manifest |")
+print("| seed | breaks | caught by (final verification against the final /repo HEAD and checks) | needs to manifest |")
 print("|---|---|---|---|")
 for d in sorted(glob.glob(os.path.join(ROOT, "seeded", "*"))):
     mp = os.path.join(d, "meta.json")
     if not os.path.exists(mp):
         continue
     m = json.load(open(mp))
-    print("| %s | %s | %s | %s |" % (m["name"], m["breaks_property"], ", ".join(m.get("caught_by") or ["-"]), (m.get("needs_to_manifest") or "").replace("|", "/")[:260]))
+    fin = m.get("final_verification") or {}
+    caught = fin.get("caught_by") if fin.get("confirmed") else None
+    col = ", ".join(caught) if caught else ("superseded by a repair (was caught by %s)" % ", ".join(m.get("caught_by") or ["-"]) if m.get("superseded") else ", ".join(m.get("caught_by") or ["-"]))
+    print("| %s | %s | %s | %s |" % (m["name"], m.get("breaks_property", m["name"][:3]), col, (m.get("needs_to_manifest") or "").replace("|", "/")[:260]))
